@@ -169,4 +169,59 @@ theorem fnum_fit (H : ApproxClosed c P) (q : SQuantity Rat) (hq : q.value.AllNum
       · exact fnum_convertImpl H _ _ (fnum_fitFraction H q _ _ hq)
     · exact fnum_convertImpl H q _ hq
 
+/-! ### the group -/
+
+open GroupedQuantity in
+theorem fnum_fitKnown (H : ApproxClosed c P) (l : List PhysQ) (g : GroupedQuantity Rat) :
+    (fitKnown c g l).1.unknown = g.unknown ∧ (fitKnown c g l).1.other = g.other ∧
+    (fitKnown c g l).1.noUnit = g.noUnit ∧
+    ((∀ pq q, g.known pq = some q → q.value.AllNum P) →
+      ∀ pq q, (fitKnown c g l).1.known pq = some q → q.value.AllNum P) := by
+  induction l generalizing g with
+  | nil => exact ⟨rfl, rfl, rfl, fun h => h⟩
+  | cons pq rest ih =>
+    unfold fitKnown
+    split
+    · exact ih g
+    · rename_i q0 hq0
+      have hset : (∀ pq' q, g.known pq' = some q → q.value.AllNum P) →
+          ∀ pq' q, (g.setKnown pq (Cook.fit c q0).1).known pq' = some q → q.value.AllNum P := by
+        intro hg pq' q hq
+        simp only [setKnown] at hq
+        split at hq
+        · simp only [Option.some.injEq] at hq
+          subst hq
+          exact fnum_fit H q0 (hg pq q0 hq0)
+        · exact hg pq' q hq
+      split
+      · obtain ⟨h1, h2, h3, h4⟩ := ih (g.setKnown pq (Cook.fit c q0).1)
+        exact ⟨h1, h2, h3, fun hg => h4 (hset hg)⟩
+      · exact ⟨rfl, rfl, rfl, hset⟩
+
+/-- **`GroupedQuantity::fit` keeps `P`**: if every number the group yields satisfies `P`, so does every number
+    the fitted group yields (for the same iteration order; the unknown-unit map is not touched) -/
+theorem fnum_group_fit (H : ApproxClosed c P) (ord : MapOrder Rat) (g : GroupedQuantity Rat)
+    (hg : ∀ q ∈ g.iter ord, q.value.AllNum P) : ∀ q ∈ (g.fit c).1.iter ord, q.value.AllNum P := by
+  obtain ⟨h1, h2, h3, h4⟩ := fnum_fitKnown H PhysQ.all g
+  have hall : ∀ pq : PhysQ, pq ∈ PhysQ.all := by intro pq; cases pq <;> decide
+  have hk : ∀ pq q, g.known pq = some q → q.value.AllNum P := by
+    intro pq q hq
+    apply hg
+    simp only [GroupedQuantity.iter, GroupedQuantity.knownList, List.mem_append, List.mem_filterMap]
+    exact Or.inl (Or.inl (Or.inl ⟨pq, hall pq, hq⟩))
+  intro q hq
+  simp only [GroupedQuantity.fit, GroupedQuantity.iter, GroupedQuantity.knownList, List.mem_append,
+    List.mem_filterMap, h1, h2, h3] at hq
+  rcases hq with ((⟨pq, _, hpq⟩ | hq) | hq) | hq
+  · exact h4 hk pq q hpq
+  · apply hg
+    simp only [GroupedQuantity.iter, List.mem_append]
+    exact Or.inl (Or.inl (Or.inr hq))
+  · apply hg
+    simp only [GroupedQuantity.iter, List.mem_append]
+    exact Or.inl (Or.inr hq)
+  · apply hg
+    simp only [GroupedQuantity.iter, List.mem_append]
+    exact Or.inr hq
+
 end Cook
